@@ -26,7 +26,7 @@ typedef struct {
     size_t ref_calls;    void *ref_arg;
     size_t enq_calls;    void *enq_arg;    m_queue_t *enq_q;
     size_t qnew_calls;   m_queue_t *qnew_ret;
-    size_t qfree_calls;  m_queue_t *qfree_arg;
+    size_t qfree_calls;  m_queue_t *qfree_arg; size_t qfree_at_unref;
     size_t cb_calls;     m_mod_t *cb_mod;  m_queue_t *cb_q;  size_t cb_qlen;      /* call_pubsub_cb */
     size_t evt_cb_calls; m_mod_t *evt_cb_mod; const m_queue_t *evt_cb_q; int evt_cb_which;   /* user on_evt-type callbacks: which = 0 hook.on_evt, 1 become'd */
     size_t push_calls;   void *push_arg;   size_t pop_calls;
